@@ -5,6 +5,7 @@ package main
 // callback - observed on Packager.Package; and the built nfpm binary's exit status, output and target path.
 
 import (
+	"syscall"
 	"github.com/goreleaser/nfpm/v2/files"
 	"encoding/hex"
 	"bytes"
@@ -302,12 +303,18 @@ func runC06Refs(w *caseWriter, id string, d c06Desc, st *c06Stats) {
 			continue
 		}
 		isContent := strings.HasPrefix(r.kind, "content")
-		for _, variant := range []string{"gone", "directory"} {
+		for _, variant := range []string{"gone", "directory", "dangling-symlink"} {
 			if variant == "directory" {
 				if isContent {
-					break // a directory is a valid content source
+					continue // a directory is a valid content source
 				}
 				must(os.Mkdir(path, 0o755))
+			}
+			if variant == "dangling-symlink" {
+				if isContent {
+					continue // a dangling link is packaged as the link it is
+				}
+				must(os.Symlink("nowhere/this-target-does-not-exist", path))
 			}
 			for _, f := range allFormats {
 				if !ok[f] {
@@ -322,7 +329,7 @@ func runC06Refs(w *caseWriter, id string, d c06Desc, st *c06Stats) {
 				st.refs++
 				st.kinds[strings.SplitN(r.kind, ":", 2)[0]+"-"+variant]++
 			}
-			if variant == "directory" {
+			if variant == "directory" || variant == "dangling-symlink" {
 				os.Remove(path)
 			}
 		}
@@ -382,6 +389,15 @@ func invalidClasses() []invalidClass {
 		}},
 		{"config-missingok-source-missing", func(c *nfpm.Config) {
 			c.Contents = append(c.Contents, &files.Content{Source: "src/not-there.conf", Destination: "/etc/c06/app.conf", Type: files.TypeConfigMissingOK})
+		}},
+		// a tree that holds something that is neither file, directory nor link (a unix socket left by a running service): it
+		// cannot be packaged, and leaving it out silently is not packaging the tree
+		{"tree-holds-a-socket", func(c *nfpm.Config) {
+			must(os.MkdirAll("sockdir/run", 0o755))
+			must(os.WriteFile("sockdir/run/app.pid", []byte("1\n"), 0o644))
+			os.Remove("sockdir/run/app.sock")
+			must(syscall.Mknod("sockdir/run/app.sock", syscall.S_IFSOCK|0o644, 0))
+			c.Contents = append(c.Contents, &files.Content{Source: "sockdir", Destination: "/opt/c06/sockdir", Type: files.TypeTree})
 		}},
 		{"config-missingok-pattern-without-match", func(c *nfpm.Config) {
 			c.Contents = append(c.Contents, &files.Content{Source: "src/conf.none/*.conf", Destination: "/etc/c06/", Type: files.TypeConfigMissingOK})
